@@ -1241,11 +1241,12 @@ OpFails(ev, pre) ==
   THEN \* an operand is not a valid array (reported where it was produced): the value clauses presuppose validity.
        \* A relation between two results still has a meaning: they are not "the same" unless they are the same record.
        (IF ev.op = "rel" /\ Len(ev.in) = 2 /\ ev.args.how \in {"same", "blocks", "array_equal", "array_equal_den", "same_decoded"}
-        THEN LET strip(x) == IF IsArray(x)
-                             THEN <<x.charge, x.ix, [i \in 1..Len(x.blocks) |-> <<x.blocks[i].s, x.blocks[i].shape, x.blocks[i].data>>],
-                                    SeqRange(x.phases), x.oddpos>>
-                             ELSE x
-             IN F(strip(Ins(ev, pre, 1)) = strip(Ins(ev, pre, 2)), ev.args.clause)
+        THEN LET strip(x) == <<x.charge, x.ix, [i \in 1..Len(x.blocks) |-> <<x.blocks[i].s, x.blocks[i].shape, x.blocks[i].data>>],
+                                SeqRange(x.phases), x.oddpos>>
+                 u == Ins(ev, pre, 1)
+                 w == Ins(ev, pre, 2)
+             IN \* (an invalid array and a number, a vector, ... are never "the same")
+                F(IsArray(u) /\ IsArray(w) /\ strip(u) = strip(w), ev.args.clause)
         ELSE {})
   ELSE IF ev.op = "rel" THEN PseudoFails(ev, pre)
   ELSE IF ev.op = "observe" THEN ObserveEv(ev)
